@@ -130,3 +130,33 @@ def expand_real(template, ctx):
 def snapshot(ctx):
     g = {k: v for k, v in ctx.globals.items() if k not in ("attrs",)}
     return (dict(ctx.locals), len(ctx.localStack), len(ctx.repeatStack), dict(ctx.repeatMap), g)
+
+
+# ------------------------------------------------------------------ METAL grammar: one macro (3 bodies) x one use (5 fill shapes)
+
+
+def metal_grammar():
+    out = []
+    for mb in range(3):
+        for uv in range(5):
+            if mb == 0:
+                body = ["[", El("span", children=["d1"], metal={"define-slot": "s1"}), "|", El("span", children=["d2"], metal={"define-slot": "s2"}), "]"]
+            elif mb == 1:
+                body = ["[", El("span", children=["d1 ", El("u", children=["t"], content=(False, "tv"))], metal={"define-slot": "s1"}), "|",
+                        El("em", children=["e"], condition="cv", content=(False, "dv")), El("span", attrs=[("k", "orig")], children=["d2"], metal={"define-slot": "s2"}), "]"]
+            else:
+                body = [El("li", children=[El("span", children=["d"], metal={"define-slot": "s1"}), El("b", children=["b"], content=(False, "x/v | default"))], repeat=("x", "items"))]
+            macro = El("div", attrs=[("class", "m")], children=body, metal={"define-macro": "m"})
+            if uv == 0:
+                fills = ["unused"]
+            elif uv == 1:
+                fills = [El("b", children=["F1"], content=(False, "tv"), metal={"fill-slot": "s1"})]
+            elif uv == 2:
+                fills = [El("b", attrs=[("k", "v")], children=["F1"], attributes=[("k", "av")], metal={"fill-slot": "s1"}), " dropped ", El("i", children=["F2"], replace=(False, "tv"), metal={"fill-slot": "s2"})]
+            elif uv == 3:
+                fills = [El("q", children=[El("b", children=["F"], condition="cv", metal={"fill-slot": "s2" if mb < 2 else "s1"})])]
+            else:
+                fills = [El("b", children=["F9"], metal={"fill-slot": "s9"})]
+            use = El("p", children=fills, metal={"use-macro": "macros/m"})
+            out.append(("metal%d%d" % (mb, uv), El("html", children=[macro, " ", use, " ", El("s", children=["after"], content=(False, "tv"))])))
+    return out
